@@ -44,6 +44,20 @@ def step (v : VM) : Call → VM
 
 def run (v : VM) (cs : List Call) : VM := cs.foldl step v
 
+/-- units of the region currently mapped by this stream -/
+def mapped (v : VM) (u : Nat) : Bool := v.maps.any fun m => m.1 == u
+
+/-- The stream only ever touches address space it holds: every `munmap` and every `MAP_FIXED` mapping covers
+units that are mapped by this stream at that moment. (A `munmap` of a range already released, or a `MAP_FIXED`
+onto a range given back before, hits whatever another thread was handed there in between.) -/
+def ownOnly : VM → List Call → Bool
+  | _, [] => true
+  | v, c :: rest =>
+    (match c with
+     | .munmap off len => (List.range len).all fun u => mapped v (off + u)
+     | .mmapFixed off len _ => (List.range len).all fun u => mapped v (off + u)
+     | _ => true) && ownOnly (step v c) rest
+
 /-- Which file unit backs region unit `u`. -/
 def backing (v : VM) (u : Nat) : Option Nat := (v.maps.find? fun m => m.1 == u).map (·.2)
 
